@@ -568,6 +568,23 @@ def check_adler_bam1(rep, mod):
             order.append(d)
         visit(sv)
         ip = constinterp.Interp(mod, g, None)
+        if len(g.order) <= 16 and any(d.op == 'phi' for d in order):
+            # a small function whose conversion branches (a conditional form of the modulo): interpret the whole function with the stored word as the value of every load of the field
+            res = {}
+
+            def obs(i, env, ipx, si=si, sv=sv, res=res):
+                if i is si:
+                    res['v'] = ipx.val(sv.split()[-1], env)
+
+            def run_fin(x, g=g, P=P, crc_atom=crc_atom, res=res, obs=obs):
+                res.clear()
+                constinterp.Interp(mod, g, obs, load_hook=lambda i: x if P.atoms(i.ops[0]) == {crc_atom} else None).run()
+                r = res.get('v')
+                return None if r in (None, constinterp.TOP) else r & 0xffffffff
+            bad = sweep(fn, run_fin)
+            R.check(bad is None, mod.where(g, si), '%s: the stored zlib checksum %#010x is converted to %#010x, RFC 1950 Adler-32 is %#010x (A = stored + 1 mod 65521): the trailer / the exposed checksum is wrong for inputs that '
+                    'end on this value' % ((fn,) + (bad or (0, 0, 0))), key='T-ADLER-BAM1|%s' % fn, sample='%s: B << 16 | (s + 1) mod 65521 for all 65521 values' % fn)
+            continue
 
         def run_fin(x, order=order, ip=ip, sv=sv):
             env = {}
